@@ -109,7 +109,7 @@ func runC09(c c09Case) ev.Outcome {
 	} else if c.Tamper > 0 {
 		var cells []faultCase
 		for _, fc := range enumCells(c.Run, []string{"+1"}, nil, 0, 2) {
-			if coveredFieldKind(fc.F.MsgType, fc.F.Field.Name, "+1") && fc.F.Field.Name != "paillier_n" {
+			if fc.F.Kind == "+1" && coveredFieldKind(fc.F.MsgType, fc.F.Field.Name, "+1") && fc.F.Field.Name != "paillier_n" {
 				cells = append(cells, fc)
 			}
 		}
